@@ -130,6 +130,7 @@ type seqRun struct {
 	step    int
 	ord     int
 	anyTCP  bool
+	async   bool // a listener or a connection existed: reactions may come late
 	hadNT   bool
 }
 
@@ -209,6 +210,9 @@ func (r *seqRun) adopt(m *msock, id ident) *evid.Failure {
 		if o == m {
 			return nil
 		}
+	}
+	if m.kind == kListener || m.kind == kConn {
+		r.async = true
 	}
 	r.ord++
 	m.ord = r.ord
@@ -400,7 +404,7 @@ func (r *seqRun) opTCPActive(st Step) *evid.Failure {
 		evid.Label("refused:tcp-connect:" + fmt.Sprint(e))
 		return nil
 	}
-	r.anyTCP = true
+	r.anyTCP, r.async = true, true
 	la, _ := so.EP.GetLocalAddress()
 	key := tkey(la.Addr, la.Port, remote, rport)
 	nic := homeOf(la.Addr)
@@ -534,6 +538,8 @@ func (r *seqRun) opRawReg(st Step) *evid.Failure {
 	ep := &rawEP{}
 	e := r.w.s.RegisterTransportEndpoint(tcpip.NICID(nic), np, tp, sid, ep)
 	if e != nil {
+		// a refused endpoint must stay silent for the rest of the case
+		r.allRaw = append(r.allRaw, &msock{kind: kRaw, raw: ep, id: id, ord: -1})
 		if dup {
 			evid.Label("refused:raw-duplicate")
 		} else {
@@ -941,8 +947,8 @@ func (r *seqRun) opInject(st Step) (*evid.Failure, bool) {
 
 func (r *seqRun) settle() {
 	last, same := -1, 0
-	for i := 0; i < 60 && same < 2; i++ {
-		time.Sleep(8 * time.Millisecond)
+	for i := 0; i < 80 && same < 2; i++ {
+		time.Sleep(6 * time.Millisecond)
 		n := 0
 		for k := 1; k <= r.w.nics; k++ {
 			n += r.w.taps[k].Len()
@@ -960,7 +966,9 @@ func (r *seqRun) finish() *evid.Failure {
 	if !r.anyTCP {
 		return nil
 	}
-	r.settle()
+	if r.async {
+		r.settle()
+	}
 	if f := r.noStrayAccepts("end of case"); f != nil {
 		return f
 	}
